@@ -258,7 +258,8 @@ def support(rng, tier):
     res = []
     rs = np.random.RandomState(31 + rng.randrange(1000))
     nrep = 10 if tier == 'quick' else 100
-    incr = [lambda x: x ** 3 + x, lambda x: np.exp(x / 4), lambda x: 2 * x + 5, lambda x: np.arctan(x)]
+    incr = [lambda x: x ** 3 + x, lambda x: np.exp(x / 4), lambda x: 2 * x + 5, lambda x: np.arctan(x),
+            lambda x: (x - 1) * 2.0 ** 24]      # the last one pulls close values apart
     for rep in range(nrep):
         nc = rs.randint(4, 7)
         m = nc * (nc - 1) // 2
